@@ -36,6 +36,8 @@ pub enum Codec {
     Positional,
     /// the same with struct names written and checked (RON `struct_names` style)
     PositionalNamed,
+    /// human-readable positional format whose numbers travel as text (query-string / INI / XML style)
+    Text,
 }
 
 /// How the value under test is embedded in what is actually sent.
@@ -50,6 +52,17 @@ pub enum Wrap {
     Pair,
     /// `Box::new(v)`
     Boxed,
+    /// inside a user enum with `#[serde(untagged)]` (self-describing serde formats only: serde buffers
+    /// the content and replays it to each variant)
+    Untagged,
+}
+
+/// A user-side enum around the value under test.
+#[derive(Serialize, serde::Deserialize, PartialEq, Debug, Clone)]
+#[cfg_attr(feature = "borsh", derive(borsh::BorshSerialize, borsh::BorshDeserialize))]
+#[serde(untagged)]
+pub enum UntaggedUser<V> {
+    It(V),
 }
 
 impl Codec {
@@ -63,6 +76,7 @@ impl Codec {
             Codec::JsonPretty => "serde_json(pretty, from_str)",
             Codec::Positional => "positional(visit_seq)",
             Codec::PositionalNamed => "positional(visit_seq, struct names checked)",
+            Codec::Text => "text(human-readable, numbers as strings)",
         }
     }
 }
@@ -229,6 +243,7 @@ fn encode_plain<V: Wire>(codec: Codec, v: &V) -> Result<Vec<u8>, String> {
         Codec::JsonPretty => serde_json::to_vec_pretty(v).map_err(|e| e.to_string()),
         Codec::Positional => crate::poscodec::to_vec(v).map_err(|e| e.to_string()),
         Codec::PositionalNamed => crate::poscodec::to_vec_opt(v, true).map_err(|e| e.to_string()),
+        Codec::Text => crate::poscodec::to_vec_text(v).map_err(|e| e.to_string()),
         Codec::Cbor => serde_cbor::to_vec(v).map_err(|e| e.to_string()),
         Codec::CborPacked => serde_cbor::ser::to_vec_packed(v).map_err(|e| e.to_string()),
         #[cfg(feature = "borsh")]
@@ -244,6 +259,7 @@ fn decode_plain<V: Wire>(codec: Codec, b: &[u8]) -> Result<V, String> {
         Codec::JsonPretty => std::str::from_utf8(b).map_err(|e| e.to_string()).and_then(|s| serde_json::from_str(s).map_err(|e| e.to_string())),
         Codec::Positional => crate::poscodec::from_slice(b).map_err(|e| e.to_string()),
         Codec::PositionalNamed => crate::poscodec::from_reader_opt(b, true).map_err(|e| e.to_string()),
+        Codec::Text => crate::poscodec::from_reader_text(b).map_err(|e| e.to_string()),
         Codec::Cbor | Codec::CborPacked => serde_cbor::from_slice(b).map_err(|e| e.to_string()),
         #[cfg(feature = "borsh")]
         Codec::Borsh => borsh::from_slice(b).map_err(|e| format!("{e:?}")),
@@ -258,6 +274,7 @@ fn encode_piped<V: Wire>(codec: Codec, v: &V, w: &mut PipeW) -> Result<(), Strin
         Codec::JsonPretty => serde_json::to_writer_pretty(w, v).map_err(|e| e.to_string()),
         Codec::Positional => crate::poscodec::to_writer(w, v).map_err(|e| e.to_string()),
         Codec::PositionalNamed => crate::poscodec::to_writer_opt(w, v, true).map_err(|e| e.to_string()),
+        Codec::Text => crate::poscodec::to_writer_text(w, v).map_err(|e| e.to_string()),
         Codec::Cbor => serde_cbor::to_writer(w, v).map_err(|e| e.to_string()),
         Codec::CborPacked => {
             let mut ser = serde_cbor::Serializer::new(serde_cbor::ser::IoWrite::new(w)).packed_format();
@@ -276,6 +293,7 @@ fn decode_piped<V: Wire>(codec: Codec, r: &mut PipeR) -> Result<V, String> {
         Codec::JsonPretty => serde_json::from_reader(r).map_err(|e| e.to_string()),
         Codec::Positional => crate::poscodec::from_reader(r).map_err(|e| e.to_string()),
         Codec::PositionalNamed => crate::poscodec::from_reader_opt(r, true).map_err(|e| e.to_string()),
+        Codec::Text => crate::poscodec::from_reader_text(r).map_err(|e| e.to_string()),
         Codec::Cbor | Codec::CborPacked => serde_cbor::from_reader(r).map_err(|e| e.to_string()),
         #[cfg(feature = "borsh")]
         Codec::Borsh => borsh::from_reader(r).map_err(|e| format!("{e:?}")),
@@ -301,6 +319,7 @@ where
     Option<V>: Wire,
     (V, V): Wire,
     Box<V>: Wire,
+    UntaggedUser<V>: Wire,
 {
     match scn.wrap {
         Wrap::None => roundtrip_one(v, walk, scn, cov, prog),
@@ -340,6 +359,15 @@ where
             prog,
         ),
         Wrap::Boxed => roundtrip_one(&Box::new(v.clone()), &|w: &Box<V>, out: &mut Vec<u64>| walk(w, out), scn, cov, prog),
+        Wrap::Untagged => {
+            if matches!(scn.codec, Codec::Json | Codec::JsonValue | Codec::JsonPretty | Codec::Cbor | Codec::CborPacked) {
+                roundtrip_one(&UntaggedUser::It(v.clone()), &|w: &UntaggedUser<V>, out: &mut Vec<u64>| match w {
+                    UntaggedUser::It(x) => walk(x, out),
+                }, scn, cov, prog)
+            } else {
+                roundtrip_one(v, walk, scn, cov, prog)
+            }
+        }
     }
 }
 
@@ -361,6 +389,7 @@ fn roundtrip_one<V: Wire>(
             Wrap::Some => " sent as Some(v)",
             Wrap::Pair => " sent as (v, v)",
             Wrap::Boxed => " sent as Box<v>",
+            Wrap::Untagged => " sent inside an untagged user enum",
         },
         codec.name(),
         BUILD
@@ -555,7 +584,7 @@ fn expected_len(scn: &PipeScn) -> usize {
 }
 
 fn valid(scn: &PipeScn) -> bool {
-    if scn.kind == Kind::N {
+    if matches!(scn.kind, Kind::N | Kind::U) {
         return false;
     }
     if scn.nums.len() != expected_len(scn) || scn.nums.iter().any(|x| x.is_nan()) {
@@ -622,7 +651,7 @@ pub fn check_one(scn: &PipeScn, cov: &mut Cov, prog: &Progress) -> Result<u64, (
         Kind::I(_) => go!(IntOfLog<Poly8>),
         Kind::Q => go!(IntOfLogPoly4),
         Kind::W => go!(Piecewise<Poly0>),
-        Kind::N => Ok(0),
+        Kind::N | Kind::U => Ok(0),
     }
 }
 
@@ -667,14 +696,14 @@ fn gen_num(rng: &mut Rng, finite_only: bool) -> f64 {
 
 fn codecs() -> &'static [Codec] {
     if cfg!(feature = "borsh") {
-        &[Codec::Json, Codec::Cbor, Codec::CborPacked, Codec::JsonValue, Codec::JsonPretty, Codec::Positional, Codec::PositionalNamed, Codec::Borsh, Codec::Borsh, Codec::Borsh]
+        &[Codec::Json, Codec::Cbor, Codec::CborPacked, Codec::JsonValue, Codec::JsonPretty, Codec::Positional, Codec::PositionalNamed, Codec::Text, Codec::Borsh, Codec::Borsh, Codec::Borsh]
     } else {
-        &[Codec::Json, Codec::Cbor, Codec::CborPacked, Codec::JsonValue, Codec::JsonPretty, Codec::Positional, Codec::PositionalNamed]
+        &[Codec::Json, Codec::Cbor, Codec::CborPacked, Codec::JsonValue, Codec::JsonPretty, Codec::Positional, Codec::PositionalNamed, Codec::Text]
     }
 }
 
 fn ser_kinds() -> Vec<Kind> {
-    Kind::all().into_iter().filter(|k| *k != Kind::N).collect()
+    Kind::all().into_iter().filter(|k| !matches!(k, Kind::N | Kind::U)).collect()
 }
 
 fn gen_scn(rng: &mut Rng, _tier: Tier) -> PipeScn {
@@ -723,6 +752,7 @@ fn gen_scn(rng: &mut Rng, _tier: Tier) -> PipeScn {
             1 => Wrap::Some,
             2 => Wrap::Pair,
             3 => Wrap::Boxed,
+            4 => Wrap::Untagged,
             _ => Wrap::None,
         },
         pipe: PipeCfg {
@@ -825,7 +855,7 @@ fn to_json(scn: &PipeScn) -> Value {
         "segments": scn.nseg,
         "numbers": fj_list(&scn.nums),
         "codec": scn.codec.name(),
-        "sent_as": match scn.wrap { Wrap::None => "the value itself", Wrap::Vec2 => "vec![v, v]", Wrap::Some => "Some(v)", Wrap::Pair => "(v, v)", Wrap::Boxed => "Box::new(v)" },
+        "sent_as": match scn.wrap { Wrap::None => "the value itself", Wrap::Vec2 => "vec![v, v]", Wrap::Some => "Some(v)", Wrap::Pair => "(v, v)", Wrap::Boxed => "Box::new(v)", Wrap::Untagged => "untagged user enum around v" },
         "pipe": {"max_bytes_per_write": scn.pipe.wmax, "max_bytes_per_read": scn.pipe.rmax, "interrupted_write_pct": scn.pipe.eintr_w_pct, "interrupted_read_pct": scn.pipe.eintr_r_pct, "pipe_seed": scn.pipe.seed},
     })
 }
@@ -847,6 +877,7 @@ fn from_json(v: &Value) -> Result<PipeScn, String> {
         "serde_json(pretty, from_str)" => Codec::JsonPretty,
         "positional(visit_seq)" => Codec::Positional,
         "positional(visit_seq, struct names checked)" => Codec::PositionalNamed,
+        "text(human-readable, numbers as strings)" => Codec::Text,
         s => return Err(format!("bad codec {s}")),
     };
     if codec == Codec::Borsh && !cfg!(feature = "borsh") {
@@ -864,6 +895,7 @@ fn from_json(v: &Value) -> Result<PipeScn, String> {
             Some("Some(v)") => Wrap::Some,
             Some("(v, v)") => Wrap::Pair,
             Some("Box::new(v)") => Wrap::Boxed,
+            Some("untagged user enum around v") => Wrap::Untagged,
             _ => Wrap::None,
         },
         pipe: PipeCfg {
@@ -912,6 +944,7 @@ impl World for C18 {
                         Codec::JsonPretty => "codec_serde_json_pretty_from_str",
                         Codec::Positional => "codec_positional_visit_seq",
                         Codec::PositionalNamed => "codec_positional_named",
+                        Codec::Text => "codec_text_numbers_as_strings",
                     });
                     cov.hit(match base.shape {
                         Shape::Knot => "shape_knot",
